@@ -48,14 +48,15 @@ def closure(W, adj):
     return R
 
 
-def trace_job(fixture, tier, timeout_ms=300000, only_start=None, only_goal=None):
+def trace_job(fixture, tier, timeout_ms=300000, only_start=None, only_goal=None, what="hwires"):
     """get_hwires(<hierarchical wire>, selection=ALL) == the electrically connected net, for every hierarchical
     wire of the fixture as the starting point (symbolic connections)."""
     import importlib
     ghw = importlib.import_module("spydrnet.util.get_hwires")
+    ghc = importlib.import_module("spydrnet.util.get_hcables")
     from spydrnet.util.selection import Selection
     t0 = time.time()
-    base = "C12/get_hwires(ALL){%s}" % fixture
+    base = "C12/get_%s(ALL){%s}" % (what, fixture)
     u, pre, fx = H.build(fixture)
     out = []
     A = pre.type_constraints() + spec.inv_all(pre) + H.local_nets(pre, fx)
@@ -79,7 +80,7 @@ def trace_job(fixture, tier, timeout_ms=300000, only_start=None, only_goal=None)
         keep_all = lambda x: True
         ctx.natives[keep_all] = lambda c, f, a, k: True
         try:
-            res = call_function(ctx, fr, ghw._get_hwires,
+            res = call_function(ctx, fr, ghw._get_hwires if what == "hwires" else ghc._get_hcables,
                                 [SList(1, [start]), Selection.ALL, ("*",), False, True, False, keep_all])
         except Unsupported as e:
             out.append(result(name, INCONCLUSIVE, "E1/symheap", detail="Unsupported: %s" % e, wall_s=time.time() - t0))
@@ -87,7 +88,8 @@ def trace_job(fixture, tier, timeout_ms=300000, only_start=None, only_goal=None)
         funcs = sorted(fn_ident(f) for f in ctx.funcs_seen)
         cs, nodup = [], []
         for b in W:
-            bid = ATOMS.intern(b)
+            # (hierarchical cables: every cable of the fixtures has one wire, so the cable of b stands for b)
+            bid = ATOMS.intern(b if what == "hwires" else H.HPath(b[:-1]))
             member = OR(*[AND(present(res, k), EQ(to_atom(res.el[k]).t, bid)) for k in range(res.cap)
                           if res.el[k] is not None])
             cs.append(EQ(member, R[(start, b)]) if (is_sym(member) or is_sym(R[(start, b)])) else member == R[(start, b)])
@@ -120,7 +122,7 @@ def trace_job(fixture, tier, timeout_ms=300000, only_start=None, only_goal=None)
             else:
                 state = replay.heap_to_state(pre, mdl)
                 rp = {"engine": "E1", "property": "C12", "obligation": oname, "kind": "trace", "state": state,
-                      "start": list(start), "fixture": fixture}
+                      "start": list(start), "fixture": fixture, "what": what}
                 try:
                     viol, txt = replay_trace(rp)
                 except Exception:
@@ -146,7 +148,8 @@ def replay_trace(rp):
         start = HRef.from_sequence([objs[g] for g in rp["start"]])
         got = set()
         dup = False
-        for hw in sdn.get_hwires(start, selection="ALL"):
+        cables = rp.get("what", "hwires") == "hcables"
+        for hw in (sdn.get_hcables if cables else sdn.get_hwires)(start, selection="ALL"):
             key = tuple(id(x) for x in _seq(hw))
             dup = dup or key in got
             got.add(key)
@@ -189,8 +192,11 @@ def replay_trace(rp):
                                 union(k, k2)
         skey = tuple(id(x) for x in _seq(start))
         want = {k for _, _, _, k in allw if find(k) == find(skey)}
-        return (got != want or dup), "get_hwires(ALL) returned %d hierarchical wires%s, the connected net has %d" % (
-            len(got), " (with duplicates)" if dup else "", len(want))
+        if cables:
+            want = {k[:-1] for k in want}     # path of the cable that holds the wire
+        return (got != want or dup), "get_%s(ALL) returned %d hierarchical %s%s, the connected net has %d" % (
+            "hcables" if cables else "hwires", len(got), "cables" if cables else "wires",
+            " (with duplicates)" if dup else "", len(want))
 
 
 def _seq(href):
